@@ -1,6 +1,8 @@
 import Driver.Proto
 import GbVerif.Model.Header
 import GbVerif.Spec.Header
+import GbVerif.Spec.Cart
+import GbVerif.Model.Cart
 import GbVerif.Gen.HeaderTables
 namespace Driver
 open GbVerif
@@ -11,10 +13,11 @@ open GbVerif
    in-process: `Header` transmuted from the 80 bytes; `valid_checksum`, `get_rom_bank_count`, `get_rom_size_bytes`,
    `get_ram_size_bytes`, `create_cart_state` (identified by its bank-register behaviour; panic caught).
 
-`c19.file kind=<file|missing> hdr=<80 bytes hex> len=<n> pb=<probe bank> | out=<stdout prefix hex> err=<stderr prefix hex> status=<alive|exit:N|sig:N>`
+`c19.file kind=<file|missing> hdr=<80 bytes hex> len=<n> pb=<bank number selected> mk=<bank holding 'Z'> | out=<stdout prefix hex> err=<stderr prefix hex> status=<alive|exit:N|sig:N>`
    the real binary on a file of `len` bytes: zeros, the header at 0x100, a probe program at 0x150 that selects ROM
-   bank `pb`, reads 0x7FFF, prints that byte, 'K' and a newline on the serial port, then loops; byte 'Z' at
-   offset 0x4000*pb + 0x3FFF (whatever of this fits into `len`).
+   bank number `pb`, reads 0x7FFF, prints that byte, 'K' and a newline on the serial port, then loops; byte 'Z' at
+   offset 0x4000*mk + 0x3FFF (whatever of this fits into `len`).  `pb` may exceed the declared bank count: the
+   controller then reduces it (model: `Cart.getRomBank`; spec: `CartSpec.romBank`), and a run that dies is a fault.
 -/
 
 namespace C19
@@ -86,7 +89,13 @@ def checkFile (l : Line) : Verdict :=
   let missing := l.inS "kind" == "missing"
   let len := l.inN "len"
   let pb := l.inN "pb"
+  let mk := l.inN "mk"
   let rom := romOf hdr
+  -- the probe's register writes (harness `probe_code`): MBC1 5 low bits at 0x2000 and 2 high bits at 0x4000, else 7 bits at 0x2000
+  let typ := rom 0x147
+  let isMbc1 : Bool := decide (1 ≤ typ) && decide (typ ≤ 3)
+  let wlo := if isMbc1 then pb % 32 else pb % 128
+  let whi := if isMbc1 then pb / 32 else 0
   let out := (parseBytes (l.outS "out")).toList
   let err := (parseBytes (l.outS "err")).toList
   let status := l.outS "status"
@@ -112,10 +121,17 @@ def checkFile (l : Line) : Verdict :=
   else
   let specProbeBad :=
     obs == .accepted && (match HeaderSpec.romBanks? (rom 0x148) with
-      | some n => pb < n && 0x4000 * pb + 0x3fff < len && !isPrefix (loading ++ [0x5A, 0x4B, 0x0A]) out
+      | some n =>
+        let ctl? : Option CartSpec.Ctl := match HeaderSpec.controller? typ with
+          | some .romOnly => some .romOnly | some .mbc1 => some .mbc1 | some .mbc3 => some .mbc3 | _ => none
+        (match ctl? with
+         | some ctl =>
+           let eff := CartSpec.romBank ctl n (CartSpec.regsAfter ctl [(0x2000, wlo), (0x4000, whi)])
+           eff == mk && mk < n && 0x4000 * mk + 0x3fff < len && !isPrefix (loading ++ [0x5A, 0x4B, 0x0A]) out
+         | none => false)
       | none => false)
   if specProbeBad then
-    .specDiff s!"accepted, but bank {pb} byte 0x7FFF (inside the declared ROM) did not read back: ROM size / controller not as the header tables say"
+    .specDiff s!"accepted, but after selecting bank number {pb} the byte at 0x7FFF (bank {mk} of the declared ROM) did not read back: ROM size / controller not as the header tables say"
   else
   -- model
   let f : Header.RomFile := ⟨!missing, len, rom⟩
@@ -130,9 +146,12 @@ def checkFile (l : Line) : Verdict :=
     else if !containsSub (bytesOfString "Unsupported cart type") err then .modelDiff "model: panic message 'Unsupported cart type' not on stderr"
     else .ok true
   | .accepted cfg =>
-    if pb ≥ cfg.romBanks then .bad s!"probe bank {pb} outside the model's {cfg.romBanks} banks"
+    let kind : Cart.Kind := if cfg.kind == 1 then .mbc1 else if cfg.kind == 3 then .mbc3 else .none
+    let cart := Cart.writeRom (Cart.writeRom (Cart.init kind cfg.romBanks (cfg.ramBytes / 0x2000)) 0x2000 wlo) 0x4000 whi
+    let eff := Cart.getRomBank cart
+    if mk ≥ cfg.romBanks then .bad s!"marker bank {mk} outside the model's {cfg.romBanks} banks"
     else
-      let b := if 0x4000 * pb + 0x3fff < len then 0x5A else 0
+      let b := if eff == mk && 0x4000 * mk + 0x3fff < len then 0x5A else 0
       if !isPrefix (loading ++ [b, 0x4B, 0x0A]) out then .modelDiff s!"model: accepted ({cfg.romBanks} banks, kind {cfg.kind}), probe prints {b}; impl stdout differs"
       else if status != "alive" then .modelDiff s!"model: accepted and running; impl status={status}"
       else .ok true
